@@ -5,6 +5,7 @@ From Coq Require Import List NArith ZArith Bool.
 Import ListNotations.
 From Mos Require Import model.I64 Gen.BinOps model.Expr spec.Cpu6502 Gen.CpuSyms model.TestRun spec.TestSpec
   proofs.TestRunProofs.
+From Mos Require Gen.OpcodeTable spec.Isa proofs.Cpu6502Proofs.
 Open Scope Z_scope.
 
 (* For every element list (assertions and traces at arbitrary program counters, also inside loops and
@@ -98,3 +99,31 @@ Theorem C18_report_counts : forall results,
   (rp_num_failed rp = 0 <-> process_exit_status rp = 0).
 Proof. exact report_counts. Qed.
 Print Assumptions C18_report_counts.
+
+(* a verdict, once reached, does not depend on the run length *)
+Theorem C18_verdict_stable : forall n r v,
+  run n r = v -> v <> VOutOfFuel -> forall m, (n <= m)%nat -> run m r = v.
+Proof. exact run_mono. Qed.
+Print Assumptions C18_verdict_stable.
+
+(* the machine decodes exactly the documented opcode matrix (spec/Isa.v, the one the assembler is proved against in C01) *)
+Theorem C18_decode_isa : forall o m md, decode o = Some (m, md) <-> Isa.isa m md = Some o.
+Proof. exact Cpu6502Proofs.decode_isa. Qed.
+Print Assumptions C18_decode_isa.
+
+(* F-C18a, repaired in /repo by 900f3f8: a runner that removes an element from its list when it fires reports
+   `passed` for an assertion in a loop that is false on the second visit (corpus/C18/loop_assert.asm) and for an
+   assertion in a subroutine that is false on the second call (corpus/C18/sub_twice.asm) *)
+Theorem C18_remove_on_fire_refuted :
+  (run_removing 20 (runner0 w1_elements w1_cpu) = Passed /\
+   exists m cf, spec_run 20 w1_elements w1_cpu = SFail (mkLoc 4 13) m cf /\ rX cf = 2) /\
+  (run_removing 20 (runner0 w2_elements w2_cpu) = Passed /\
+   exists m cf, spec_run 20 w2_elements w2_cpu = SFail (mkLoc 7 13) m cf /\ rA cf = 0).
+Proof. exact remove_on_fire_refuted. Qed.
+Print Assumptions C18_remove_on_fire_refuted.
+
+(* non-vacuity: the two witnesses run without abort and the repaired runner reports them at the right place *)
+Example C18_witnesses_now_fail :
+  (exists f, run 20 (runner0 w1_elements w1_cpu) = Failed f /\ f_loc f = mkLoc 4 13 /\ rX (f_cpu f) = 2) /\
+  (exists f, run 20 (runner0 w2_elements w2_cpu) = Failed f /\ f_loc f = mkLoc 7 13 /\ rA (f_cpu f) = 0).
+Proof. exact witnesses_now_fail. Qed.
